@@ -111,7 +111,7 @@ prop('C16', units=['idx', 'fs'], level='proof', relevant=r'^unit::(index|file_sy
      assumptions=IDX_ASSUME + ['FileId obeys vstd\'s HashSet key model',
                                'FS: the file system hands out ids from a finite, unchanging universe (false for an OS file system with `./` path aliases: see DESIGN, finding on path aliases)',
                                'FS: the path of a file has a parent directory; PathBuf::from_str never fails',
-                               'FS: resolve_include_file is external_body: its result is a function (resolve_spec) of the file system, the path and the directory list, and handing out an id does not change what resolves',
+                               'FS: resolve_include_file is verified: an include path resolves to the file of the FIRST directory of the list in which it is readable (resolve_spec over the uninterpreted answers fs_readable / fs_id of the file system); ASSUMED of FileSystem implementations: read_content is Some iff readable, assign_or_get_file_id returns the id of the path and changes neither readability nor ids; FilePath::join is a function of directory and text',
                                'FS: list_includes is external_body: distinct include statements have distinct ids',
                                'FS: FileSet/SourceRoot/HashMap<IncludeId,_>/salsa setters behave as their ghost views say (assumed contracts); IncludeId obeys the key model',
                                'FS: R4 desugaring of the inner for-loop; a `;` plus ghost block is appended after the unit tail expression of the outer loop body'])
